@@ -1,2 +1,3 @@
 pub mod sm3;
 pub mod sm4;
+pub mod zuc;
